@@ -3,6 +3,7 @@ package vk
 import (
 	"crypto/sha256"
 	"fmt"
+	"sort"
 	"sync"
 
 	"github.com/relab/hotstuff"
@@ -96,7 +97,45 @@ func c11Ops(w *World, d dualAuth, rng *vbase.Rng, length int, capacity uint) []c
 		return ps
 	}
 	for len(ops) < length {
-		switch rng.Intn(13) {
+		switch rng.Intn(14) {
+		case 13: // real signature objects combined by the real Combine, then looked at again: the inputs, the result, and the
+			// first input's signature bytes relabelled with all signers (one signature presented as the combination)
+			if n >= 2 {
+				ids := pickIDs(rng.Range(2, min(n, 4)))
+				if rng.Bool() {
+					sort.Slice(ids, func(a, b int) bool { return ids[a] < ids[b] })
+				}
+				msg := rng.Bytes(rng.Range(1, 12))
+				var objs []hotstuff.QuorumSignature
+				for _, id := range ids {
+					sg, err := w.M(id).Auth.Sign(msg)
+					if err != nil {
+						panic(err)
+					}
+					objs = append(objs, sg)
+				}
+				ops = append(ops, c11Op{Kind: "verify", Class: "honest", Sig: objs[0], Msg: msg})
+				first := Decompose(objs[0])
+				comb, err := w.M(ids[0]).Auth.Combine(objs...)
+				if err == nil {
+					ops = append(ops, c11Op{Kind: "verify", Class: "honest-combined", Sig: comb, Msg: msg})
+				}
+				for k, o := range objs {
+					if k < 2 {
+						ops = append(ops, c11Op{Kind: "verify", Class: "input-of-combine-again", Sig: o, Msg: msg})
+					}
+				}
+				if w.Scheme == crypto.NameBLS12 && first.Kind == crypto.NameBLS12 {
+					var bf crypto.Bitfield
+					for _, id := range ids {
+						bf.Add(id)
+					}
+					if rs, err := crypto.RestoreBLS12AggregateSignature(first.Agg, bf); err == nil {
+						ops = append(ops, c11Op{Kind: "verify", Class: "first-input-relabelled-as-the-combination", Sig: rs, Msg: msg})
+					}
+				}
+				pool = append(pool, seen{ids, msg})
+			}
 		case 12: // framing twins: a valid batch, then the same signature for a batch with the same signers whose messages are cut elsewhere
 			if n >= 2 {
 				ids := pickIDs(2)
@@ -272,7 +311,7 @@ func c11Ops(w *World, d dualAuth, rng *vbase.Rng, length int, capacity uint) []c
 
 func c11Diff(p vbase.Params, r *vbase.Result) {
 	r.Rule = "two authorities over the same keys and the same scheme object, one with core.WithCache(c), c in {1,2,3,5,8,100}, one without; identical sequences of verify / batch-verify operations " +
-		"(honest, combined, replayed unchanged, replayed with altered message / batch (message changed, re-keyed, entry added/removed, same concatenation, messages re-cut across six plausible entry framings) / signer labels / bit field, own Sign results, " +
+		"(honest, combined by the real Combine with the inputs re-verified and the first input relabelled as the combination, replayed unchanged, replayed with altered message / batch (message changed, re-keyed, entry added/removed, same concatenation, messages re-cut across six plausible entry framings) / signer labels / bit field, own Sign results, " +
 		"filler traffic forcing eviction); oracle: the uncached verdict (nil / non-nil) on every operation; non-trivial: replay whose uncached verdict is invalid; distinct: (scheme,capacity,class,uncached verdict,position class)"
 	caps := []uint{1, 2, 3, 5, 8, 100}
 	seqs := p.N(240, 20000)
